@@ -27,7 +27,7 @@ import gen
 import gr2
 import harness
 
-THEOREMS = ["Grc.Sem.dstep_sound", "Grc.Sem.decomp_sound", "Grc.Sem.decomp_value", "Grc.Sem.noDiv_total", "Grc.Sem.evalS_fold", "Grc.Sem.evalS_foldC",
+THEOREMS = ["Grc.Eng.runPass_no_rules", "Grc.Sem.dstep_sound", "Grc.Sem.decomp_sound", "Grc.Sem.decomp_value", "Grc.Sem.noDiv_total", "Grc.Sem.evalS_fold", "Grc.Sem.evalS_foldC",
             "Grc.Sem.decode_encode", "Grc.Sem.wrap32_id"]
 
 OPTS = [["-p"], [], ["-v3", "-p"], ["-v5"], ["-c"], ["-v2", "-p"]]
@@ -178,7 +178,75 @@ def run(tier, seed, replay=None):
             rep.violation(name, {"case": name, "options": opts, "problems": problems[:6], "text_glyphs": glyphs,
                                  "meaning": "shaping the one-rule program with libgraphite2 gives other user attribute values than evaluating the GDL expressions"})
         shutil.rmtree(r["dir"], ignore_errors=True)
+    # (T2b) engine level: the Lean reference interpreter of the IR's rules (Grc.Eng.shape) against libgraphite2 on the compiled font
+    import itertools
+    import json as _json
+    fams = [("match", lambda r: gen.gen_match_program(r, size="small")), ("expr", lambda r: gen.gen_expr_program(r)),
+            ("classes", lambda r: gen.gen_class_program(r)), ("optional", lambda r: gen.gen_opt_program(r, refs=False)),
+            ("match3", lambda r: gen.gen_match_program(r, npasses=3, size="small"))]
+    per = 8 if tier == "quick" else 80
+    ntext = 40 if tier == "quick" else 120
+    for fi, (fname, mk) in enumerate(fams):
+        cases = harness.gen_cases(seed, 200 + fi, per, lambda rng, i, mk=mk: mk(rng))
+        for ci, (name, prog) in enumerate(cases):
+            name = "e%s%s" % (fname[0], name)
+            opts = OPTS[(ci + fi) % len(OPTS)]
+            r = harness.compile_cases(build, work, [(name, prog)], extra_args=opts)[0]
+            if r["rc"] != 0 or not os.path.exists(os.path.join(r["dir"], "out.ttf")):
+                stats["engine_level_rejected"] += 1
+                shutil.rmtree(r["dir"], ignore_errors=True)
+                continue
+            trng = random.Random(seed * 977 + ci * 31 + fi)
+            gl = sorted(set(g for v in prog.classes.values() for g in v if 2 <= g < prog.nglyphs))
+            alpha = gl[:10] + [g for g in range(2, prog.nglyphs) if g not in gl][:2]
+            texts = [[a] for a in alpha] + [list(t) for t in itertools.product(alpha[:5], repeat=2)]
+            while len(texts) < ntext:
+                texts.append([trng.choice(alpha) for _ in range(trng.randint(3, 8))])
+            inv = {v: k for k, v in prog.cmap.items()}
+            texts = [t for t in texts[:ntext] if all(g in inv for g in t)]
+            lines = ["font %s/out.ttf" % r["dir"], "ir %s/p.ir.json" % r["dir"]] + (["expand"] if fname == "optional" else []) + ["shape " + " ".join(map(str, t)) for t in texts]
+            outs = common.run_grcv(lines)
+            k = 2
+            if fname == "optional":
+                while outs[k] != "done":
+                    k += 1
+                k += 1
+            f = gr2.Face(os.path.join(r["dir"], "out.ttf"))
+            problems = []
+            if not f.ok():
+                stats["engine_level_font_rejected_by_libgraphite2 (decided under C03)"] += 1
+            else:
+                for t, o in zip(texts, outs[k:]):
+                    if o.startswith("stalled"):
+                        stats["engine_level_outside_fragment"] += 1
+                        continue
+                    mine = _json.loads(o)
+                    seg = f.shape([inv[g] for g in t], user_attrs=4)
+                    stats["engine_level_texts"] += 1
+                    if seg is None:
+                        problems.append("text %s: libgraphite2 produces no segment; the rules give %s" % (t, [x[0] for x in mine]))
+                        break
+                    got = [[x["gid"], x["before"], x["after"], list(x["user"])] for x in seg]
+                    if [x[0] for x in got] != [x[0] for x in mine]:
+                        problems.append("text %s: libgraphite2 renders glyphs %s, the rules as written give %s" % (t, [x[0] for x in got], [x[0] for x in mine]))
+                    elif [x[3] for x in got] != [x[3] for x in mine]:
+                        problems.append("text %s: user attributes %s, the rules as written give %s" % (t, [x[3] for x in got], [x[3] for x in mine]))
+                    elif all(x[4] for x in mine) and [x[1:3] for x in got] != [x[1:3] for x in mine]:
+                        problems.append("text %s: glyph-to-character associations %s, the rules as written give %s" % (t, [x[1:3] for x in got], [x[1:3] for x in mine]))
+                    if len(problems) >= 4:
+                        break
+            f.close()
+            stats["engine_level_programs"] += 1
+            if problems:
+                d = harness.save_case(rep, r, name)
+                rep.violation(name, {"case": name, "family": fname, "options": opts, "problems": problems[:4],
+                                     "meaning": "shaping the named glyph string with libgraphite2 on the compiled font differs from applying the program's rules as written (Lean reference interpreter Grc.Eng.shape)",
+                                     "rerun": "cd %s && printf 'font out.ttf\\nir p.ir.json\\nshape <glyph ids>\\n' | %s" % (d, common.grcv_path())})
+            shutil.rmtree(r["dir"], ignore_errors=True)
     rep.coverage.update({
+        "engine_level_programs": stats["engine_level_programs"], "engine_level_texts": stats["engine_level_texts"],
+        "engine_level_texts_outside_fragment": stats["engine_level_outside_fragment"],
+        "engine_level_font_rejected_by_libgraphite2 (decided under C03)": stats["engine_level_font_rejected_by_libgraphite2 (decided under C03)"], "engine_level_rejected": stats["engine_level_rejected"],
         "programs": stats["programs"], "rejected": stats["rejected"], "rules_checked": stats["rules"],
         "attribute_values_compared_as_trees": stats["attr_values"], "item_constraints_compared_as_trees": stats["item_constraints"],
         "engine_cases": stats["engine_cases"], "engine_cases_skipped_machine_stops": stats["engine_cases_skipped_machine_stops"],
